@@ -107,6 +107,8 @@ class Env:
         self.prefix = list(prefix or [])
         self.loop = VLoop()
         self.world = World(self.loop.time, kinds=scenario.kinds)
+        self.world.on_write = lambda idx, rec: self.log('write', idx=idx, actor=rec['actor'], name=rec['name'],
+                                                        verb=rec['verb'], objkind=rec['kind'])
         self.obs: list[tuple[float, str, dict[str, Any]]] = []
         self.labels: list[str] = []                       # the choice taken at every choice point
         self.points: list[tuple[str, tuple[str, ...]]] = []  # (choice, enabled)
